@@ -80,6 +80,71 @@ package optics
 //@   ensures forall s S :: result.get(s) == app(fmap, lens.get(s))
 //@   ensures forall s S, v B :: result.put(s, v) == lens.put(s, app(cmap, v))
 
+// BiMapS/B/I/F: the codec over the field lens that ForProduct1 derives for the same names
+//@ func BiMapS
+//@   props C04
+//@   opt overflow=off
+//@   ghost all := flatten(fieldsof(pureof(rtypeof(S))), 0, [])
+//@   ghost off := ite(len(attr) == 0, loc(firsttype(all, rtypeof(A))), loc(firstname(all, attr[0])))
+//@   may_panic_when true
+//@   ensures result != nil
+//@   ensures reads_the_named_field_converted: forall s S :: result.get(s) == conv(fget(s, off, A), B)
+//@   ensures writes_the_named_field_converted: forall s S, v B :: result.put(s, v) == fput(s, off, conv(v, A))
+//@   fn 0:
+//@     pure
+//@     ensures result == conv($1, B)
+//@   fn 1:
+//@     pure
+//@     ensures result == conv($1, A)
+
+//@ func BiMapB
+//@   props C04
+//@   opt overflow=off
+//@   ghost all := flatten(fieldsof(pureof(rtypeof(S))), 0, [])
+//@   ghost off := ite(len(attr) == 0, loc(firsttype(all, rtypeof(A))), loc(firstname(all, attr[0])))
+//@   may_panic_when true
+//@   ensures result != nil
+//@   ensures reads_the_named_field_converted: forall s S :: result.get(s) == conv(fget(s, off, A), B)
+//@   ensures writes_the_named_field_converted: forall s S, v B :: result.put(s, v) == fput(s, off, conv(v, A))
+//@   fn 0:
+//@     pure
+//@     ensures result == conv($1, B)
+//@   fn 1:
+//@     pure
+//@     ensures result == conv($1, A)
+
+//@ func BiMapI
+//@   props C04
+//@   opt overflow=off
+//@   ghost all := flatten(fieldsof(pureof(rtypeof(S))), 0, [])
+//@   ghost off := ite(len(attr) == 0, loc(firsttype(all, rtypeof(A))), loc(firstname(all, attr[0])))
+//@   may_panic_when true
+//@   ensures result != nil
+//@   ensures reads_the_named_field_converted: forall s S :: result.get(s) == conv(fget(s, off, A), B)
+//@   ensures writes_the_named_field_converted: forall s S, v B :: result.put(s, v) == fput(s, off, conv(v, A))
+//@   fn 0:
+//@     pure
+//@     ensures result == conv($1, B)
+//@   fn 1:
+//@     pure
+//@     ensures result == conv($1, A)
+
+//@ func BiMapF
+//@   props C04
+//@   opt overflow=off
+//@   ghost all := flatten(fieldsof(pureof(rtypeof(S))), 0, [])
+//@   ghost off := ite(len(attr) == 0, loc(firsttype(all, rtypeof(A))), loc(firstname(all, attr[0])))
+//@   may_panic_when true
+//@   ensures result != nil
+//@   ensures reads_the_named_field_converted: forall s S :: result.get(s) == conv(fget(s, off, A), B)
+//@   ensures writes_the_named_field_converted: forall s S, v B :: result.put(s, v) == fput(s, off, conv(v, A))
+//@   fn 0:
+//@     pure
+//@     ensures result == conv($1, B)
+//@   fn 1:
+//@     pure
+//@     ensures result == conv($1, A)
+
 // Isomorphism: Forward copies the source focus into the target focus; Inverse the reverse
 //@ interface Isomorphism
 //@   ghostmethod fwd(s S, t T) : T
@@ -224,7 +289,7 @@ package optics
 //@   opt safetyprops=C02
 //@   opt lemmas=nth_take,len_take
 //@   ghost all := flatten(fieldsof(pureof(rtypeof(T))), 0, [])
-//@   panics_when true
+//@   may_panic_when true
 //@   ensures result != nil
 //@   ensures focus_1_by_type: len(attr) == 0 ==> result.foff() == loc(firsttype(all, rtypeof(A)))
 //@   ensures focus_1_by_name: len(attr) > 0 ==> result.foff() == loc(firstname(all, attr[0]))
@@ -236,7 +301,7 @@ package optics
 //@   opt safetyprops=C02
 //@   opt lemmas=nth_take,len_take
 //@   ghost all := flatten(fieldsof(pureof(rtypeof(T))), 0, [])
-//@   panics_when true
+//@   may_panic_when true
 //@   ensures result != nil
 //@   ensures focus_1_by_type: len(attr) == 0 ==> result.roff() == loc(firsttype(all, rtypeof(A)))
 //@   ensures focus_1_by_name: len(attr) > 0 ==> result.roff() == loc(firstname(all, attr[0]))
@@ -247,7 +312,7 @@ package optics
 //@   opt safetyprops=C02
 //@   opt lemmas=nth_take,len_take
 //@   ghost all := flatten(fieldsof(pureof(rtypeof(T))), 0, [])
-//@   panics_when true
+//@   may_panic_when true
 //@   ensures result != nil
 //@   ensures focus_1_by_type: len(attr) == 0 ==> result.foff() == loc(firsttype(all, rtypeof(A)))
 //@   ensures focus_1_by_name: len(attr) > 0 ==> result.foff() == loc(firstname(all, attr[0]))
@@ -263,7 +328,7 @@ package optics
 //@   opt safetyprops=C02
 //@   opt lemmas=nth_take,len_take
 //@   ghost all := flatten(fieldsof(pureof(rtypeof(T))), 0, [])
-//@   panics_when true
+//@   may_panic_when true
 //@   ensures result != nil
 //@   ensures focus_1_by_type: len(attr) == 0 ==> result.roff() == loc(firsttype(all, rtypeof(A)))
 //@   ensures focus_1_by_name: len(attr) > 0 ==> result.roff() == loc(firstname(all, attr[0]))
@@ -277,7 +342,7 @@ package optics
 //@   opt safetyprops=C02
 //@   opt lemmas=nth_take,len_take
 //@   ghost all := flatten(fieldsof(pureof(rtypeof(T))), 0, [])
-//@   panics_when true
+//@   may_panic_when true
 //@   ensures result != nil
 //@   ensures focus_1_by_type: len(attr) == 0 ==> result.foff() == loc(firsttype(all, rtypeof(A)))
 //@   ensures focus_1_by_name: len(attr) > 0 ==> result.foff() == loc(firstname(all, attr[0]))
@@ -297,7 +362,7 @@ package optics
 //@   opt safetyprops=C02
 //@   opt lemmas=nth_take,len_take
 //@   ghost all := flatten(fieldsof(pureof(rtypeof(T))), 0, [])
-//@   panics_when true
+//@   may_panic_when true
 //@   ensures result != nil
 //@   ensures focus_1_by_type: len(attr) == 0 ==> result.roff() == loc(firsttype(all, rtypeof(A)))
 //@   ensures focus_1_by_name: len(attr) > 0 ==> result.roff() == loc(firstname(all, attr[0]))
@@ -314,7 +379,7 @@ package optics
 //@   opt safetyprops=C02
 //@   opt lemmas=nth_take,len_take
 //@   ghost all := flatten(fieldsof(pureof(rtypeof(T))), 0, [])
-//@   panics_when true
+//@   may_panic_when true
 //@   ensures result != nil
 //@   ensures focus_1_by_type: len(attr) == 0 ==> result.foff() == loc(firsttype(all, rtypeof(A)))
 //@   ensures focus_1_by_name: len(attr) > 0 ==> result.foff() == loc(firstname(all, attr[0]))
@@ -338,7 +403,7 @@ package optics
 //@   opt safetyprops=C02
 //@   opt lemmas=nth_take,len_take
 //@   ghost all := flatten(fieldsof(pureof(rtypeof(T))), 0, [])
-//@   panics_when true
+//@   may_panic_when true
 //@   ensures result != nil
 //@   ensures focus_1_by_type: len(attr) == 0 ==> result.roff() == loc(firsttype(all, rtypeof(A)))
 //@   ensures focus_1_by_name: len(attr) > 0 ==> result.roff() == loc(firstname(all, attr[0]))
@@ -358,7 +423,7 @@ package optics
 //@   opt safetyprops=C02
 //@   opt lemmas=nth_take,len_take
 //@   ghost all := flatten(fieldsof(pureof(rtypeof(T))), 0, [])
-//@   panics_when true
+//@   may_panic_when true
 //@   ensures result != nil
 //@   ensures focus_1_by_type: len(attr) == 0 ==> result.foff() == loc(firsttype(all, rtypeof(A)))
 //@   ensures focus_1_by_name: len(attr) > 0 ==> result.foff() == loc(firstname(all, attr[0]))
@@ -386,7 +451,7 @@ package optics
 //@   opt safetyprops=C02
 //@   opt lemmas=nth_take,len_take
 //@   ghost all := flatten(fieldsof(pureof(rtypeof(T))), 0, [])
-//@   panics_when true
+//@   may_panic_when true
 //@   ensures result != nil
 //@   ensures focus_1_by_type: len(attr) == 0 ==> result.roff() == loc(firsttype(all, rtypeof(A)))
 //@   ensures focus_1_by_name: len(attr) > 0 ==> result.roff() == loc(firstname(all, attr[0]))
@@ -409,7 +474,7 @@ package optics
 //@   opt safetyprops=C02
 //@   opt lemmas=nth_take,len_take
 //@   ghost all := flatten(fieldsof(pureof(rtypeof(T))), 0, [])
-//@   panics_when true
+//@   may_panic_when true
 //@   ensures result != nil
 //@   ensures focus_1_by_type: len(attr) == 0 ==> result.foff() == loc(firsttype(all, rtypeof(A)))
 //@   ensures focus_1_by_name: len(attr) > 0 ==> result.foff() == loc(firstname(all, attr[0]))
@@ -441,7 +506,7 @@ package optics
 //@   opt safetyprops=C02
 //@   opt lemmas=nth_take,len_take
 //@   ghost all := flatten(fieldsof(pureof(rtypeof(T))), 0, [])
-//@   panics_when true
+//@   may_panic_when true
 //@   ensures result != nil
 //@   ensures focus_1_by_type: len(attr) == 0 ==> result.roff() == loc(firsttype(all, rtypeof(A)))
 //@   ensures focus_1_by_name: len(attr) > 0 ==> result.roff() == loc(firstname(all, attr[0]))
@@ -467,7 +532,7 @@ package optics
 //@   opt safetyprops=C02
 //@   opt lemmas=nth_take,len_take
 //@   ghost all := flatten(fieldsof(pureof(rtypeof(T))), 0, [])
-//@   panics_when true
+//@   may_panic_when true
 //@   ensures result != nil
 //@   ensures focus_1_by_type: len(attr) == 0 ==> result.foff() == loc(firsttype(all, rtypeof(A)))
 //@   ensures focus_1_by_name: len(attr) > 0 ==> result.foff() == loc(firstname(all, attr[0]))
@@ -503,7 +568,7 @@ package optics
 //@   opt safetyprops=C02
 //@   opt lemmas=nth_take,len_take
 //@   ghost all := flatten(fieldsof(pureof(rtypeof(T))), 0, [])
-//@   panics_when true
+//@   may_panic_when true
 //@   ensures result != nil
 //@   ensures focus_1_by_type: len(attr) == 0 ==> result.roff() == loc(firsttype(all, rtypeof(A)))
 //@   ensures focus_1_by_name: len(attr) > 0 ==> result.roff() == loc(firstname(all, attr[0]))
@@ -532,7 +597,7 @@ package optics
 //@   opt safetyprops=C02
 //@   opt lemmas=nth_take,len_take
 //@   ghost all := flatten(fieldsof(pureof(rtypeof(T))), 0, [])
-//@   panics_when true
+//@   may_panic_when true
 //@   ensures result != nil
 //@   ensures focus_1_by_type: len(attr) == 0 ==> result.foff() == loc(firsttype(all, rtypeof(A)))
 //@   ensures focus_1_by_name: len(attr) > 0 ==> result.foff() == loc(firstname(all, attr[0]))
@@ -572,7 +637,7 @@ package optics
 //@   opt safetyprops=C02
 //@   opt lemmas=nth_take,len_take
 //@   ghost all := flatten(fieldsof(pureof(rtypeof(T))), 0, [])
-//@   panics_when true
+//@   may_panic_when true
 //@   ensures result != nil
 //@   ensures focus_1_by_type: len(attr) == 0 ==> result.roff() == loc(firsttype(all, rtypeof(A)))
 //@   ensures focus_1_by_name: len(attr) > 0 ==> result.roff() == loc(firstname(all, attr[0]))
@@ -604,7 +669,7 @@ package optics
 //@   opt safetyprops=C02
 //@   opt lemmas=nth_take,len_take
 //@   ghost all := flatten(fieldsof(pureof(rtypeof(T))), 0, [])
-//@   panics_when true
+//@   may_panic_when true
 //@   ensures result != nil
 //@   ensures focus_1_by_type: len(attr) == 0 ==> result.foff() == loc(firsttype(all, rtypeof(A)))
 //@   ensures focus_1_by_name: len(attr) > 0 ==> result.foff() == loc(firstname(all, attr[0]))
@@ -648,7 +713,7 @@ package optics
 //@   opt safetyprops=C02
 //@   opt lemmas=nth_take,len_take
 //@   ghost all := flatten(fieldsof(pureof(rtypeof(T))), 0, [])
-//@   panics_when true
+//@   may_panic_when true
 //@   ensures result != nil
 //@   ensures focus_1_by_type: len(attr) == 0 ==> result.roff() == loc(firsttype(all, rtypeof(A)))
 //@   ensures focus_1_by_name: len(attr) > 0 ==> result.roff() == loc(firstname(all, attr[0]))
